@@ -14,7 +14,7 @@ def configs(tier, seed):
 
 
 BOUNDS = {"atoms": "bit length in {1,2,7,8,9,12,15,16,17,24,31,32,33,63,64} x bit position 0..7 x "
-          "byte position {none,1,3} x byte order; BCD <= 16 bits (quick), packed <= 20 / unpacked <= 32 bits (thorough; packed BCD of 24 bits is at the solver's limit and outside the claim); thorough: every bit length 1..64; integer "
+          "byte position {none,1,3} x byte order; BCD <= 16 bits (quick), packed <= 20 / unpacked <= 24 bits (thorough; packed BCD of 24 bits is at the solver's limit and outside the claim); thorough: every bit length 1..64; integer "
           "values symbolic in [-2^(bl+2), 2^(bl+2)], W=80; byte fields: every content, lengths 0..n+1; "
           "floats: every non-NaN binary64; strings: catalogue of 13 operands; MIN-MAX-LENGTH and "
           "LEADING-LENGTH-INFO types with byte fields (every content, lengths 0..max+1) and strings",
